@@ -536,7 +536,11 @@ class _Generator(Generator):
             '',
             '{} = {}[{}];'.format(unique_tmp_addition_mask, unique_addition_mask,
                                   addition_mask_length - 1),
-            '{} = 0x{:02x};'.format(unique_mask, 0x80 >> (len(type_.additions) % 8)),
+            # The first unknown bit is in the next octet if the known
+            # additions fill their last octet.
+            '{} = 0x{:02x};'.format(
+                unique_mask,
+                (0x80 >> (len(type_.additions) % 8)) & 0x7f),
             '{} = 0;'.format(unique_unknown_addition_bits),
             '',
             'for (i = {}; i < {}; i++) {{'.format(len(type_.additions),
